@@ -14,7 +14,7 @@ Separate Extraction number0 decimal0 valid_number valid_decimal
   serve close_err
   xml_minify escape_attr_val escape_cdata_val collapse
   emit st_cmd
-  print_gen OpAssign print_rw T_gen
+  print_gen OpAssign OpExpr print_rw T_gen
   box_collapse_nat hex_color_minify css_shorten_color_hex
   HtmlWs.html_minify HtmlAttr.html_escape_attr_val HtmlWsWf.wf_tokens_b HtmlSelect.html_select HtmlEmbed.html_minify_reg HtmlEmbed.mt_js HtmlEmbed.mt_css HtmlEmbed.mt_html HtmlEmbed.mt_svg HtmlEmbed.mt_math
   get_name rename_program js_identStart_alpha js_identContinue_alpha js_identStart_freq js_identContinue_freq.
